@@ -8,8 +8,8 @@ VERUS = {"C07", "C09"}
 
 CLAIMED = {
     "C20": {
-        "text": "Kani function contracts on the real `classify` (every f64 bit pattern / usize group count / ledger shape): silence => Insufficient and never Rejected; Rejected => positive opposition under the policy invariant; status/threshold table. `Policy::admits`/`mode_exclusion`/`threshold`+coherence slice establish the policy invariant 0<=material<=accept<=1. Score fold of `aggregate` (two verbatim statement slices): canonicalisation is permutation-invariant bit-for-bit and monotone, scores stay in [0,1] (bounded: <=3 groups). Partial: decides only the listed contracts.",
-        "note": "Scope: classification kernel, mode admission, thresholds, score fold.",
+        "text": "Kani function contracts on the real `classify` (every f64 bit pattern / usize group count / ledger shape): silence => Insufficient and never Rejected; Rejected => positive opposition under the policy invariant; status/threshold table. `Policy::admits`/`mode_exclusion`/`threshold`+coherence slice establish the policy invariant 0<=material<=accept<=1. `Context::eligible` (verbatim into a unit-struct impl): retracted / superseded / expired / not-yet-valid / no-longer-valid / inadmissible-mode assertions are excluded with their reason, a stated confidence (0.0 included) is weighed as stated. The corroboration merge step of `aggregate` (verbatim slice, generic in the key type): all bridged groups merge into one with the union of keys and the maximum confidence, sharing never adds a group (bounded: every subset of <= 3 groups). Score fold of `aggregate` (two verbatim statement slices): canonicalisation is permutation-invariant bit-for-bit and monotone, scores stay in [0,1] (bounded: <=3 groups). Partial: decides only the listed contracts.",
+        "note": "Scope: eligibility, classification kernel, mode admission, thresholds, merge step, score fold.",
         "technique": TECH_K,
     },
     "C11": {
@@ -45,6 +45,11 @@ CLAIMED.update({
         "note": "Scope: three fold steps of history.rs only; Store::elements_at's step (BTreeMap<String,_>) did not finish and is not under contract.",
         "technique": TECH_K,
     },
+    "C19": {
+        "text": "Kani contract harnesses on the real governance code of anda_cognitive_nexus (135 harnesses): covers / scope_matches / reaches_classification / conditions_hold against a specification restated from the documentation (empty list = unrestricted, empty value never matches a bounded list, expiry takes effect at the instant, strength / assurance / purpose bars); the attenuation lattice (AuthorityScope / AuthorityConditions / AuthorityConstraints::contains => pointwise implication of matching: a delegation never confers more than its container), export and max_results complete over every bool / u64; precedence of EffectiveAuthority::authorize on 18 concrete authority shapes (inactive principal / suspended space => Deny, a matching deny wins even over the owner, default deny, approvals_required > 0 => RequireApproval never Allow, expired grant denied); gate tables clause_permissions (every MutationClause variant, complete), kml / kql / meta permissions (Read != Export, AS OF => ReadHistory, belief pattern => Project). Mostly bounded (strings <= 2 bytes, lists <= 2, concrete shapes). Partial.",
+        "note": "Scope: the pure authorization decision, its matching helpers, the attenuation lattice and the command->permission gate tables. redact::apply (field mask) did not finish and is not under contract.",
+        "technique": TECH_K,
+    },
     "C14": {
         "text": "Kani contract harnesses on the real auth::authorize with ApiKeyHash::verify replaced by an uninterpreted relation (the table holds for EVERY relation): Ok(Admin) iff no admin key configured or the presented key verifies against it; Ok(Database) only at Database scope with a bound key that verifies — never at Root; every rejection is the one fixed 401/unauthorized answer and is identical whether the database is unbound, bound to another key or nonexistent (relational, two calls). RootMethod::parse / DbMethod::parse: every documented method name resolves to its selector in its scope only; Read is claimed only for pure queries (frozen table written from the documentation); every other ASCII name up to 28 bytes resolves to nothing (bounded). Partial: handlers and middleware are async and not under contract.",
         "note": "Scope: authorization decision and method/effect table.",
@@ -65,5 +70,4 @@ NOT_APPLICABLE = {
     # planned, not yet built in this commit (moved to CLAIMED when their check passes)
     "C13": "planned (DESIGN §3 C13) — contracts not built yet in this commit",
     "C16": "planned (DESIGN §3 C16) — contracts not built yet in this commit",
-    "C19": "planned (DESIGN §3 C19) — contracts not built yet in this commit",
 }
